@@ -1,4 +1,6 @@
 import CelmaVerif.Lemmas.UsageTree
+import CelmaVerif.Lemmas.UsageLines
+import CelmaVerif.Lemmas.UsageReach
 /-
   C18 — the usage lists exactly the visible arguments, each once.
   Property theorems only; the specification-side definitions (how a usage text is read: `classify`,
@@ -20,6 +22,18 @@ import CelmaVerif.Lemmas.UsageTree
   handler (`Ev.sub k`) - leave there; `t.usageSub k evs` is the text written for `prog <evs> -g -h`.  The
   `C18_subgroup_*` theorems quantify over every tree, every sub-group handler in it with any argument set, and
   every sequence of standard arguments.
+
+  Reader and text: the theorems above read the text with `parseUsage` / `captions`; `C18_no_other_lines` says
+  that the lines this reader does NOT use (`ignoredLines`) are the `Usage:` line and empty lines only, so no
+  argument can be printed on a line the reader passes over; `C18_lines_are_lines` says the lines of the model
+  are the lines of the byte text.  `Handler.Built` / `Tree.Built`: handlers / trees made with the definition
+  operations (constructor, sub-group constructor, `addArgument` + modifiers, `setUsageLineLength`); for them
+  the hypothesis `KeysDistinct` of `C18_help_arg` is proved (`C18_built_keys_distinct`, `C18_tree_built`).
+
+  Definitional lemmas (they restate the model or the specification by `rfl` / unfolding and are NOT clauses of the
+  property on their own; kept because other statements cite them): `C18_notes_iff`, `C18_switches`,
+  `C18_subgroup_argument`, `C18_subgroup_help_arg`.  The end-to-end statements are `C18_entry`,
+  `C18_switch_effect`, `C18_subgroup_argument_listed`, `C18_subgroup_help_arg_outcomes`, `C18_help_arg_slash`.
 -/
 namespace CelmaVerif.Props.C18
 open CelmaVerif CelmaVerif.Usage CelmaVerif.TextBlock
@@ -173,7 +187,8 @@ theorem C18_entry (h : Handler) (sw : List Switch) (ls : List Str)
       ∧ e.words = (words a.desc).filter (fun w => decide (w ≠ nn)) ++ (words (noteText a)).filter (fun w => decide (w ≠ nn)) :=
   ⟨_, (C18_membership h sw ls hk hu).2.2 a ha hv, rfl, rfl, rfl⟩
 
-/-- (notes iff configured) The notes behind the description: the default value iff the argument is optional
+/-- (definitional lemma about the SPECIFICATION's `noteText`, no model content: what `C18_entry` /
+    `C18_listing` mean by "the notes".)  The notes behind the description: the default value iff the argument is optional
     and prints its default, the checks iff there is one, the constraints iff there is one, the
     deprecated / replaced-by note iff deprecated, the hidden note iff hidden; and with contents "all" the key
     shown holds every key of the argument. -/
@@ -243,7 +258,8 @@ theorem C18_usage_total (h : Handler) (sw : List Switch) :
           · exact absurd h' h1
           · exact absurd h' h2
 
-/-- (standard arguments) What the four standard arguments do to the display settings: the contents is the
+/-- (definitional lemma: restates `Switch.apply` / `Handler.new` by `rfl`; the statement about a whole command
+    line is `C18_switch_effect`.)  What the four standard arguments do to the display settings: the contents is the
     one asked for last (or unchanged); `--print-hidden` / `--print-deprecated` store the negation of what the
     constructor flag preset (a boolean flag argument toggles its destination's value at definition time),
     so they switch the display on exactly when the corresponding "always" flag was not given. -/
@@ -294,16 +310,100 @@ theorem C18_help_arg (h : Handler) (raw : Str) (k : Key) (hd : KeysDistinct h.ar
   · right; right
     exact ⟨by rw [hf], by simpa using hab, hne, hrest⟩
 
-/-- (the hypothesis of `C18_help_arg` is an invariant of the API, per container) `addArgument` rejects a key
-    that equals or mismatches one stored in the same container - `mArguments` for plain arguments,
-    `mSubGroupArgs` for sub-group arguments -, so adding arguments keeps the keys of each container pairwise
-    different.  (As coded the two containers are not checked against each other: that a plain argument and a
-    sub-group argument differ is the caller's business and a hypothesis of `C18_help_arg`.) -/
-theorem C18_keys_distinct (h : Handler) (a : Arg) (mods : List Mod)
-    (hp : KeysDistinct (plainArgs h.args)) (hs : KeysDistinct (subGroupArgs h.args)) :
-    KeysDistinct (plainArgs (h.addArgument a mods).1.args)
-    ∧ KeysDistinct (subGroupArgs (h.addArgument a mods).1.args) :=
-  addArgument_distinct h a mods hp hs
+/-- (the hypothesis of `C18_help_arg` is kept by the API) `addArgument` rejects a key that equals or mismatches
+    the key of ANY argument defined so far - plain or sub-group argument -, so adding arguments keeps all keys
+    of the handler pairwise different.  (Repaired in `/repo`, 2dd61bc: the unchanged tree checked only the
+    container the new argument is stored in, `mArguments` or `mSubGroupArgs`; `addArgument( "g", int)` next to
+    `addArgument( "g", sub)` was accepted, the usage listed `-g` twice and `--help-arg g` printed the heading of
+    one with the description of the other.) -/
+theorem C18_keys_distinct (h : Handler) (a : Arg) (mods : List Mod) (hd : KeysDistinct h.args) :
+    KeysDistinct (h.addArgument a mods).1.args :=
+  addArgument_distinct h a mods hd
+
+/-- (base case) The standard arguments the constructor defines have pairwise different keys for every set of
+    constructor flags (and no blank in a key), also those of a handler built with the sub-group constructor. -/
+theorem C18_std_keys_distinct (f : Flags) :
+    KeysDistinct (Handler.new f).args ∧ KeysDistinct (subStdArgs f)
+    ∧ (∀ a ∈ (Handler.new f).args, KeyClean a.key) ∧ (∀ a ∈ subStdArgs f, KeyClean a.key) :=
+  ⟨stdArgs_distinct f, stdArgs_distinct _, stdArgs_keyClean f, stdArgs_keyClean _⟩
+
+/-- (every handler that can be built) A handler made with the definition operations - constructor with any
+    flags, any sequence of `addArgument` + modifiers (accepted or rejected), `setUsageLineLength` - has pairwise
+    different keys: the hypothesis of `C18_help_arg` holds for it. -/
+theorem C18_built_keys_distinct (h : Handler) (hb : h.Built) : KeysDistinct h.args :=
+  built_distinct h hb
+
+/-- (help for one argument, every handler that can be built) `C18_help_arg` without hypothesis:
+    `HelpOutcome` is its trichotomy. -/
+theorem C18_help_arg_built (h : Handler) (hb : h.Built) (raw : Str) (k : Key) :
+    HelpOutcome h.args h.flags.noAbbr raw k (helpArgument h raw k) :=
+  C18_help_arg h raw k (built_distinct h hb)
+
+/-- (the standard arguments of one command line) The display settings in force after the standard arguments
+    `sw` (what `C18_listing` … `C18_usage_total` call `sw.foldl (Switch.apply h.flags) h.params`): hidden
+    arguments are displayed iff `--print-hidden` was NOT used and `hfUsageHidden` preset it, or it was used and
+    the preset is off (a boolean flag argument stores the negation of its destination's value at definition
+    time); the same for deprecated ones; the contents is the one the last `--help-short` / `--help-long` asked
+    for, "all" (the value at construction) when there was none.  With `C18_membership`: on a handler without
+    `hfUsageHidden`, `prog --print-hidden -h` lists the hidden arguments, `prog -h` does not. -/
+theorem C18_switch_effect (f : Flags) (sw : List Switch) :
+    (sw.foldl (Switch.apply f) (Handler.new f).params).printHidden
+        = (if Switch.printHidden ∈ sw then !f.usageHidden else f.usageHidden)
+    ∧ (sw.foldl (Switch.apply f) (Handler.new f).params).printDeprecated
+        = (if Switch.printDeprecated ∈ sw then !f.usageDeprecated else f.usageDeprecated)
+    ∧ (sw.foldl (Switch.apply f) (Handler.new f).params).contents
+        = lastD (sw.filterMap Switch.contentsValue) .all :=
+  switches_effect f sw (Handler.new f).params
+
+/-- (nothing else is printed) The reader behind `C18_listing` / `C18_captions` uses caption lines, entry lines
+    and the continuation lines directly below an entry.  The lines of the usage text it does NOT use
+    (`ignoredLines`: every line that is neither a caption, nor an entry line, nor a continuation line attached
+    to the entry above) are: the first line `Usage:` and empty lines - nothing else.  So every line of the text
+    is the `Usage:` line, a caption, an entry line of a listed argument (`C18_listing`: exactly the visible
+    ones), a description line belonging to the entry above it, or empty; in particular no line is of a kind the
+    reader cannot classify (second conjunct), and a hidden argument cannot be printed on a line the theorems
+    do not look at. -/
+theorem C18_no_other_lines (h : Handler) (sw : List Switch) (ls : List Str)
+    (hk : ∀ a ∈ h.args, KeyClean a.key) (hu : usageWith h sw = .ok ls) :
+    (∃ n, ignoredLines ls = "Usage:".toList :: List.replicate n [])
+    ∧ (∀ l ∈ ls, l = "Usage:".toList ∨ l = [] ∨ classify l ≠ .other) := by
+  have h1 : ∃ n, ignoredLines ls = "Usage:".toList :: List.replicate n [] := by
+    rw [usageWith_eq] at hu
+    split at hu
+    · simp at hu
+    · split at hu
+      · simp at hu
+      · simp only [Res.ok.injEq] at hu
+        subst hu
+        obtain ⟨e, he, heq⟩ := ignored_usage_text _ _ _ _ _ hk
+        exact ⟨e.length, by rw [heq, ← he.eq_replicate]⟩
+  refine ⟨h1, ?_⟩
+  intro l hl
+  by_cases ho : classify l = .other
+  · obtain ⟨n, hn⟩ := h1
+    have hm : l ∈ ignoredLines ls := other_mem_ignored l ho ls false hl
+    rw [hn] at hm
+    rcases List.mem_cons.mp hm with h | h
+    · exact Or.inl h
+    · exact Or.inr (Or.inl (List.mem_replicate.mp h).2)
+  · exact Or.inr (Or.inr ho)
+
+/-- (the lines are the lines of the text) When no key contains a newline, no line of the usage text contains
+    one: the byte text `unlines ls` (every line ended by `std::endl`) cut at its newlines is `ls` again - the
+    "lines" of all C18 theorems are the lines of the text that is written. -/
+theorem C18_lines_are_lines (h : Handler) (sw : List Switch) (ls : List Str)
+    (hk : ∀ a ∈ h.args, KeyLine a.key) (hu : usageWith h sw = .ok ls) :
+    (∀ l ∈ ls, ∀ c ∈ l, c ≠ '\n') ∧ splitNl (unlines ls) = ls := by
+  have h1 : ∀ l ∈ ls, NoNl l := by
+    rw [usageWith_eq] at hu
+    split at hu
+    · simp at hu
+    · split at hu
+      · simp at hu
+      · simp only [Res.ok.injEq] at hu
+        subst hu
+        exact usage_text_noNl _ _ _ _ _ hk
+  exact ⟨h1, splitNl_unlines ls h1⟩
 
 /-! ### sub-group handlers -/
 
@@ -316,7 +416,9 @@ theorem C18_keys_distinct (h : Handler) (a : Arg) (mods : List Mod)
       "print deprecated" what the last `--print-deprecated` of any handler stored;
     * at most one contents argument (`--help-short` / `--help-long`, of whichever handler) was accepted, and it
       is the contents in force (a second one is rejected with `std::runtime_error`: `evalEvs` is not `.ok`).
-    A display setting requested on the main handler at run time therefore reaches every sub-group listing. -/
+    A display setting requested on the main handler at run time therefore reaches every sub-group listing.
+    (The first two conjuncts unfold `Tree.usageMain` / `Tree.usageSub` - they say WHERE the settings are read;
+    the content is in the last three and in `C18_subgroup_listing` … which are stated under these `u`.) -/
 theorem C18_settings_shared (t : Tree) (evs : List Ev) (u : UsageParams)
     (he : evalEvs t evs t.main.params = .ok u) :
     t.usageMain evs = usage { t.main with params := u }
@@ -330,6 +432,18 @@ theorem C18_settings_shared (t : Tree) (evs : List Ev) (u : UsageParams)
   · unfold Tree.usageMain; rw [he]
   · intro k s hs
     unfold Tree.usageSub; rw [hs]; simp only; rw [he]
+
+/-- (the two readings of one command line agree) `usageWith h sw` takes any sequence of standard arguments,
+    the tree model (`evalEvs`, as the library) refuses a second contents argument.  Whenever the tree model
+    writes the usage of the main handler for the standard arguments `sw`, `usageWith` writes the same text: the
+    main-handler theorems (`C18_listing` …) cover every command line the library accepts; the sequences
+    `usageWith` accepts in addition (`--help-short --help-long`) do not occur. -/
+theorem C18_switches_agree (t : Tree) (sw : List Switch) (ls : List Str)
+    (hu : t.usageMain (sw.map Ev.main) = .ok ls) : usageWith t.main sw = .ok ls := by
+  obtain ⟨u, he, hw⟩ := usageMain_ok t _ ls hu
+  have hu' := evalEvs_main_eq t sw _ u he
+  subst hu'
+  exact hw
 
 /-- (sub-group listing) The text a sub-group handler writes for `prog <evs> -g -h`, read back, is exactly: the
     arguments of THIS sub-group handler that are visible under the settings `u` the standard arguments `evs`
@@ -404,7 +518,8 @@ theorem C18_subgroup_captions (t : Tree) (k : Nat) (s : SubHandler) (evs : List 
   subst hs' he'
   exact C18_captions (s.asHandler u) [] ls hw
 
-/-- (the sub-group argument in the main listing) In the usage of the main handler a sub-group argument is an
+/-- (definitional lemma: the fields of `subGroupArg`, by `rfl`; the statement about the listing is
+    `C18_subgroup_argument_listed`.)  In the usage of the main handler a sub-group argument is an
     argument like any other (`C18_listing` … `C18_entry` quantify over all of `h.args`): it is listed once,
     under the caption of its kind, with its keys and description, hidden / deprecated as it was defined - and
     it never shows a default value or a check unless `setPrintDefault( true)` was called on it (then the usage
@@ -420,13 +535,103 @@ theorem C18_subgroup_argument (key : Key) (desc : Str) (k : Nat) :
   intro u
   cases hc : u.contents <;> simp [visible, subGroupArg, hc]
 
-/-- (help for one argument of a sub-group) `-g --help-arg <key>` and `--help-arg <g>/<key>` both end in
-    `helpArgument` of the sub-group handler on ITS arguments: the trichotomy of `C18_help_arg` holds for it
-    (its arguments are all plain ones: the tree has depth 2). -/
+/-- (definitional lemma: unfolds `Tree.helpArgumentSub`; the statements about what is printed are
+    `C18_subgroup_help_arg_outcomes` and, for the `g/key` form, `C18_help_arg_slash`.)
+    `-g --help-arg <key>` ends in `helpArgument` of the sub-group handler on ITS arguments. -/
 theorem C18_subgroup_help_arg (t : Tree) (k : Nat) (s : SubHandler) (raw : Str) (key : Key)
     (hs : t.enter k = .ok s) :
     t.helpArgumentSub k raw key = helpArgument (s.asHandler t.main.params) raw key := by
   unfold Tree.helpArgumentSub; rw [hs]
+
+/-- (every tree that can be built) In a handler tree made with the definition operations - constructor, sub-group
+    constructor, `addArgument` on the main handler (plain arguments, sub-group arguments for existing sub-group
+    handlers) and on sub-group handlers, the line-length setters, each accepted or rejected -: the keys of the
+    main handler's arguments (plain and sub-group) are pairwise different, every sub-group argument enters an
+    existing sub-group handler, and every sub-group handler has pairwise different keys and plain arguments
+    only. -/
+theorem C18_tree_built (t : Tree) (hb : t.Built) :
+    KeysDistinct t.main.args
+    ∧ (∀ a ∈ t.main.args, ∀ k, a.subGroup = some k → k < t.subs.length)
+    ∧ (∀ s ∈ t.subs, KeysDistinct s.args ∧ ∀ a ∈ s.args, a.subGroup = none) :=
+  let w := built_wf t hb
+  ⟨w.mainDistinct, w.subExists, fun s hs => ⟨w.subDistinct s hs, w.subPlain s hs⟩⟩
+
+/-- (sub-group listing: nothing else is printed) `C18_no_other_lines` for the text `prog <evs> -g -h` of a
+    sub-group handler. -/
+theorem C18_subgroup_no_other_lines (t : Tree) (k : Nat) (s : SubHandler) (evs : List Ev) (ls : List Str)
+    (hs : t.subs[k]? = some s) (hk : ∀ a ∈ s.args, KeyClean a.key) (hu : t.usageSub k evs = .ok ls) :
+    (∃ n, ignoredLines ls = "Usage:".toList :: List.replicate n [])
+    ∧ (∀ l ∈ ls, l = "Usage:".toList ∨ l = [] ∨ classify l ≠ .other) := by
+  obtain ⟨s', u', hs', _, hw⟩ := usageSub_ok t k evs ls hu
+  rw [hs] at hs'
+  simp only [Option.some.injEq] at hs'
+  subst hs'
+  exact C18_no_other_lines (s.asHandler u') [] ls hk hw
+
+/-- (the sub-group argument in the main listing) A sub-group argument defined on the main handler is listed in
+    the main usage like any other argument: when it is visible under the settings in force, the text has its
+    expected entry - its keys, the caption of its kind, the words of its description (and `[hidden]` /
+    `[deprecated]` notes); it never carries a default-value or check note. -/
+theorem C18_subgroup_argument_listed (t : Tree) (evs : List Ev) (u : UsageParams) (ls : List Str)
+    (hk : ∀ a ∈ t.main.args, KeyClean a.key) (he : evalEvs t evs t.main.params = .ok u)
+    (hu : t.usageMain evs = .ok ls) (a : Arg) (ha : a ∈ t.main.args) (k : Nat) (hg : a.subGroup = some k)
+    (hv : visible u a = true) :
+    expectedEntry u a ∈ parseUsage ls
+    ∧ ((∃ key desc, a = subGroupArg key desc k) → defaultNote a = [] ∧ checkNote a = []) := by
+  obtain ⟨u', he', hw⟩ := usageMain_ok t evs ls hu
+  rw [he] at he'
+  simp only [Res.ok.injEq] at he'
+  subst he'
+  refine ⟨(C18_membership { t.main with params := u } [] ls hk hw).2.2 a ha hv, ?_⟩
+  rintro ⟨key, desc, rfl⟩
+  exact ⟨rfl, rfl⟩
+
+/-- (help for one argument of a sub-group, `-g --help-arg <key>`) In a tree that can be built, the request put
+    to sub-group handler `k` through its sub-group argument has one of the three outcomes of `C18_help_arg`
+    (`HelpOutcome`) on the arguments of THAT sub-group handler: the description of the argument of the sub-group
+    meant by the key - the exactly named one when there is one -, or "unknown", or `std::runtime_error` for an
+    ambiguous abbreviation.  (When the sub-group argument is deprecated, entering it throws: `t.enter k` is not
+    `.ok`.) -/
+theorem C18_subgroup_help_arg_outcomes (t : Tree) (hb : t.Built) (k : Nat) (s : SubHandler) (raw : Str) (key : Key)
+    (hs : t.enter k = .ok s) :
+    HelpOutcome s.args s.flags.noAbbr raw key (t.helpArgumentSub k raw key) := by
+  rw [C18_subgroup_help_arg t k s raw key hs]
+  have hmem : s ∈ t.subs := List.mem_of_getElem? (enter_ok t k s hs)
+  exact C18_help_arg (s.asHandler t.main.params) raw key ((built_wf t hb).subDistinct s hmem)
+
+/-- (help for one argument, the form `--help-arg <g>/<key>` on the main handler) In a tree that can be built,
+    the request `g/rest` (typed as `full`; `rest` without a further `/`, `restKey` its key) does exactly one of
+    three things:
+    * some SUB-GROUP argument `a` of the main handler is meant by `g` - same key, or, abbreviations allowed, its
+      long key starts with the long key given; the one with exactly the key `g` whenever there is one -: the
+      sub-group handler `a` enters answers for `rest` with one of the three outcomes of `C18_help_arg` on ITS
+      arguments (`HelpOutcome`); plain arguments of the main handler are never looked at for `g`, and the
+      sub-group argument is not "used" (no refusal of a deprecated one);
+    * no sub-group argument is meant by `g`: nothing on the output, `*** ERROR: Sub-group argument '<full>' is
+      unknown!` on the error stream;
+    * no sub-group argument has exactly the key `g` and two long keys of sub-group arguments start with it:
+      `std::runtime_error`. -/
+theorem C18_help_arg_slash (t : Tree) (hb : t.Built) (full : Str) (g : Key) (rest : Str) (restKey : Key) :
+    (∃ a ∈ subGroupArgs t.main.args, ∃ k s, a.subGroup = some k ∧ t.subs[k]? = some s
+        ∧ keyMatches (!t.main.flags.noAbbr) a g = true
+        ∧ ((∃ b ∈ subGroupArgs t.main.args, keyEq b.key g = true) → keyEq a.key g = true)
+        ∧ HelpOutcome s.args s.flags.noAbbr rest restKey (t.helpArgumentSlash full g rest restKey))
+    ∨ ((∀ a ∈ subGroupArgs t.main.args, keyMatches (!t.main.flags.noAbbr) a g = false)
+        ∧ t.helpArgumentSlash full g rest restKey =
+            .ok ([], ["*** ERROR: Sub-group argument '".toList ++ full ++ "' is unknown!".toList]))
+    ∨ (t.helpArgumentSlash full g rest restKey = .throw .runtime_error ∧ t.main.flags.noAbbr = false
+        ∧ (∀ a ∈ subGroupArgs t.main.args, keyEq a.key g = false)
+        ∧ ∃ pre a post, subGroupArgs t.main.args = pre ++ a :: post ∧ keyStartsWith a.key g = true
+            ∧ ∃ p ∈ pre, keyStartsWith p.key g = true) := by
+  have w := built_wf t hb
+  rcases helpArgumentSlash_spec t full g rest restKey w.subExists with
+    ⟨a, ha, k, s, hk, hs, hm, hex, heq⟩ | h | h
+  · left
+    refine ⟨a, ha, k, s, hk, hs, hm, hex, ?_⟩
+    rw [heq]
+    exact C18_help_arg (s.asHandler t.main.params) rest restKey (w.subDistinct s (List.mem_of_getElem? hs))
+  · exact Or.inr (Or.inl h)
+  · exact Or.inr (Or.inr h)
 
 /-! ### the hypotheses are satisfiable, the statements are not vacuous -/
 
@@ -531,5 +736,79 @@ example :
     ∧ okVal (helpArgument h "gro".toList ⟨none, "gro".toList⟩)
         = some (["Argument '--gro', usage:".toList, "   x flag".toList], []) := by
   decide
+
+/-- `C18_no_other_lines` / `C18_lines_are_lines` on a concrete handler (mandatory argument with a check, hidden
+    flag, `--print-hidden` given): the reader leaves out `Usage:`, the empty line before the optional caption
+    and the empty line at the end; and `ignoredLines` is not trivially small - a line with 0-2 leading blanks
+    (the auditor's `-x secret`), and a continuation line that follows no entry, are reported by it -/
+example :
+    ∃ h : Handler, h.Built ∧ (∀ a ∈ h.args, KeyClean a.key) ∧ (∀ a ∈ h.args, KeyLine a.key)
+      ∧ (okVal (usageWith h [.printHidden])).map ignoredLines = some ["Usage:".toList, [], []]
+      ∧ (okVal (usageWith h [.printHidden])).map (fun ls => splitNl (unlines ls) == ls) = some true
+      ∧ ignoredLines ["Usage:".toList, captionOptional, "   -a  one".toList, "       more".toList, "-x secret".toList,
+            "  -y secret".toList, "       orphan".toList, []]
+          = ["Usage:".toList, "-x secret".toList, "  -y secret".toList, "       orphan".toList, []] := by
+  let f : Flags := { Flags.none with helpShort := true, helpLong := true, argHidden := true }
+  let a1 : Arg := { key := ⟨some 'a', "alpha".toList⟩, desc := "the alpha value".toList, takesValue := true,
+                    isFlag := false, defaultText := some "42".toList, printDefault := true }
+  let a2 : Arg := { key := ⟨some 'b', []⟩, desc := "secret".toList, takesValue := false, isFlag := true,
+                    defaultText := none, printDefault := false }
+  refine ⟨(((Handler.new f).addArgument a1 [.mandatory, .check "lower" "Value >= 3".toList]).1.addArgument a2 [.hidden]).1,
+    .add _ _ _ (.add _ _ _ (.new f)), ?_, ?_, by decide, by decide, by decide⟩
+  · have hargs : ∀ a ∈ (((Handler.new f).addArgument a1 [.mandatory, .check "lower" "Value >= 3".toList]).1.addArgument
+        a2 [.hidden]).1.args, keyCleanB a.key = true := by decide
+    exact fun a ha => keyClean_of_bool _ (hargs a ha)
+  · have hargs : ∀ a ∈ (((Handler.new f).addArgument a1 [.mandatory, .check "lower" "Value >= 3".toList]).1.addArgument
+        a2 [.hidden]).1.args, (a.key.short != some '\n' && !a.key.long.contains '\n') = true := by decide
+    intro a ha
+    have hb := hargs a ha
+    simp only [Bool.and_eq_true, bne_iff_ne, ne_eq, Bool.not_eq_eq_eq_not, Bool.not_true] at hb
+    refine ⟨fun c hc heq => hb.1 (by rw [hc, heq]), fun c hc heq => ?_⟩
+    subst heq
+    have : a.key.long.contains '\n' = true := List.contains_iff_mem.mpr hc
+    rw [hb.2] at this; cases this
+
+/-- the repaired defect 2dd61bc: a plain argument with the key of a sub-group argument is refused (before: both
+    were accepted and `KeysDistinct` failed for a handler built through the API) -/
+example :
+    let h := ((Handler.new { Flags.none with helpArg := true }).addArgument
+                (subGroupArg ⟨some 'g', []⟩ "the group".toList 0) []).1
+    (h.addArgument { key := ⟨some 'g', []⟩, desc := "plain g".toList, takesValue := true, isFlag := false,
+                     defaultText := some "0".toList, printDefault := true } []).2 = some .invalid_argument := by
+  decide
+
+/-- a tree that can be built (main handler with `--help-arg`; sub-group handler 0 with `-b,--beta`, entered by
+    `-g,--group`; sub-group handler 1 entered by `--grape`), and all three outcomes of `C18_help_arg_slash`:
+    `group/b` and the abbreviation `gro/beta` print the description of `-b,--beta` of sub-group 0, `g/zz` is
+    answered by the sub-group handler ("Argument 'zz' is unknown"), `zz/b` is an unknown sub-group argument,
+    `gr/b` is ambiguous; `-g --help-arg b` gives the same description -/
+example :
+    ∃ t : Tree, t.Built
+      ∧ okVal (t.helpArgumentSlash "group/b".toList ⟨none, "group".toList⟩ "b".toList ⟨some 'b', []⟩)
+          = some (["Argument '-b', usage:".toList, "   sub beta".toList], [])
+      ∧ okVal (t.helpArgumentSlash "gro/beta".toList ⟨none, "gro".toList⟩ "beta".toList ⟨none, "beta".toList⟩)
+          = some (["Argument '--beta', usage:".toList, "   sub beta".toList], [])
+      ∧ okVal (t.helpArgumentSlash "g/zz".toList ⟨some 'g', []⟩ "zz".toList ⟨none, "zz".toList⟩)
+          = some ([], ["*** ERROR: Argument 'zz' is unknown!".toList])
+      ∧ okVal (t.helpArgumentSlash "zz/b".toList ⟨none, "zz".toList⟩ "b".toList ⟨some 'b', []⟩)
+          = some ([], ["*** ERROR: Sub-group argument 'zz/b' is unknown!".toList])
+      ∧ thrown (t.helpArgumentSlash "gr/b".toList ⟨none, "gr".toList⟩ "b".toList ⟨some 'b', []⟩) = some .runtime_error
+      ∧ okVal (t.helpArgumentSub 0 "b".toList ⟨some 'b', []⟩)
+          = some (["Argument '-b', usage:".toList, "   sub beta".toList], []) := by
+  let f : Flags := { Flags.none with helpShort := true, helpArg := true }
+  let sf : Flags := { Flags.none with helpShort := true, helpArg := true }
+  let ab : Arg := { key := ⟨some 'b', "beta".toList⟩, desc := "sub beta".toList, takesValue := true, isFlag := false,
+                    defaultText := some "0".toList, printDefault := true }
+  let t1 := (Tree.new f).newSub sf
+  let t2 : Tree := { t1 with subs := setAt t1.subs 0 { flags := sf, args := subStdArgs sf ++ [ab], deprValue := true } }
+  let t3 := (t2.addArgument (subGroupArg ⟨some 'g', "group".toList⟩ "the group".toList 0) []).1
+  let t4 := t3.newSub Flags.none
+  let t5 := (t4.addArgument (subGroupArg ⟨none, "grape".toList⟩ "second".toList 1) []).1
+  have b1 : t1.Built := .newSub _ _ (.new f)
+  have b2 : t2.Built := .subAdd t1 t2 0 ab [] none b1 rfl rfl
+  have b3 : t3.Built := .group t2 _ _ 0 [] b2 (by decide)
+  have b4 : t4.Built := .newSub _ _ b3
+  have b5 : t5.Built := .group t4 _ _ 1 [] b4 (by decide)
+  exact ⟨t5, b5, by decide, by decide, by decide, by decide, by decide, by decide⟩
 
 end CelmaVerif.Props.C18
